@@ -207,6 +207,10 @@ inline int memcmp(const void* a, const void* b, size_t n) {
     VERIF_LIMIT(n <= 520, "memcmp modelled for at most 520 bytes");
     return 0;
 }
+// libc string functions (bounded models: strings of at most 200 characters)
+inline size_t strlen(const char* a) { size_t n = 0; for (size_t i = 0; i < 200; ++i) { if (a[i] == 0) break; n = i + 1; } VERIF_LIMIT(a[n] == 0, "strlen modelled for at most 200 characters"); return n; }
+inline int strncmp(const char* a, const char* b, size_t n) { for (size_t i = 0; i < 200; ++i) { if (i >= n) break; unsigned char x = (unsigned char)a[i], y = (unsigned char)b[i]; if (x != y) return x < y ? -1 : 1; if (x == 0) return 0; } VERIF_LIMIT(n <= 200, "strncmp modelled for at most 200 characters"); return 0; }
+inline int strcmp(const char* a, const char* b) { return strncmp(a, b, 200); }
 namespace std {
 template<typename T> void swap(T& a, T& b) { T t = a; a = b; b = t; }
 template<typename T> T&& move(T& a) { return (T&&)a; }
